@@ -49,9 +49,14 @@ func (its *WiredDatatype) ReceiveRemoteModelOperations(ops []*model.Operation, o
 		switch modelOp.GetOpType() {
 		case model.TypeOfOperation_TRANSACTION:
 			txOp := operations.ModelToOperation(modelOp).(*operations.TransactionOperation)
+			numOfOps := int(txOp.GetNumOfOps())
+			if numOfOps < 1 || i+numOfOps > len(ops) {
+				// an incomplete or mis-counted unit is applied not at all
+				return nil, errors.DatatypeTransaction.New(its.L(), "malformed transaction unit")
+			}
 			opList = append(opList, txOp)
-			transaction = ops[i : i+int(txOp.GetNumOfOps())]
-			i += int(txOp.GetNumOfOps())
+			transaction = ops[i : i+numOfOps]
+			i += numOfOps
 		default:
 			transaction = []*model.Operation{modelOp}
 			i++
